@@ -3,21 +3,21 @@ from .C02 import e2_jobs, META as _M
 
 META = dict(_M)
 META["level"] = "other"
-CLASSES = ["contracts.C15_all:Depolarized", "contracts.C15_all:SingleSettingRepetitions", "contracts.C15_all:FlowTestSettingUnit", "contracts.C15_all:RandomLindbladianDraws", "contracts.C15_all:FlowRandomNoiseStreams"]
+CLASSES = ["contracts.C15_all:Depolarized", "contracts.C15_all:SingleSettingRepetitions", "contracts.C15_all:FlowTestSettingUnit", "contracts.C15_all:RandomLindbladianDraws", "contracts.C15_all:FlowRandomNoiseStreams", "contracts.C15_all:PhysicalityCheckOfARun"]
 
 
 def jobs(tier, seed):
     return e2_jobs("C15", CLASSES, tier, seed)
 
 META["explanation"] = ("Partial: reproducibility / independence of the random draws is proved with ghost random streams for the single-setting entry point and the "
-                       "test-setting flow (linear estimator, depolarising noise); the run's built-in physicality check, the random effective-Lindbladian noise model and real "
-                       "multi-process workers are not decided.")
-META["not_decided"] = ["the built-in physicality check fails exactly when a stored estimate violates a configured constraint beyond the thresholds",
+                       "test-setting flow (linear estimator, depolarising noise, stream routing of the random noise model); the built-in physicality check is proved relative to "
+                       "the per-object verdicts of C01. Physicality of the random effective-Lindbladian objects and real multi-process workers are not decided.")
+META["not_decided"] = [
                        "random effective-Lindbladian noise produces physical objects (expm, unitary_group opaque); in the flow contract its generate() is replaced by its stream contract",
                        "results with real joblib worker processes (the model runs tasks in-process in permuted orders)",
                        "loss-minimisation estimator cases inside a simulation run (estimators are deterministic functions of the stored data: C13)"]
 
 CLAIM = {'engine': 'E2-symtwin', 'level': 'other',
- 'text': 'PARTIAL. With numpy.random replaced by ghost streams (stream id, position) and joblib by an in-process model that runs tasks in forward, reversed and rotated order, the unmodified simulation entry points are executed and proved to be functions of settings and seeds: execute_simulation draws only from the stream its seed / generator identifies (the global state only without a seed), no two repetitions depend on a common draw, re-estimating from the stored empirical distributions reproduces the stored estimates; execute_simulation_test_setting_unit gives repetition i exactly the draws of the i-th child of SeedSequence(seed_data), never touches the global state, and its generated objects, data and estimates do not change with task order or the four n_jobs settings; the random parts of the effective-Lindbladian noise model draw only from the stream they are given, and the flow hands the generator of sample i (i-th child of SeedSequence(seed_qoperation)) to the noise of the true object and of every tester. DepolarizedQOperationGenerationSetting.generate is proved, for every rate p in [0,1] and every symbolic state / POVM / gate / measurement process on 1 qubit and 1 qutrit, to return (1-p) ideal + p (maximally mixed of the same trace).',
- 'note': 'Two genuine defects found and fixed (single-setting run with an integer seed made all repetitions identical; POVM tomography could not be simulated at all: misspelled keyword). NOT decided: the built-in physicality check, physicality of the random effective-Lindbladian objects (only the routing of their random streams is proved), real worker processes, loss-minimisation cases. Gate.is_cp of the depolarising channel is used through its closed-form spectrum (assumed lemma, cross-checked natively). Generators trusted.',
+ 'text': 'PARTIAL. With numpy.random replaced by ghost streams (stream id, position) and joblib by an in-process model that runs tasks in forward, reversed and rotated order, the unmodified simulation entry points are executed and proved to be functions of settings and seeds: execute_simulation draws only from the stream its seed / generator identifies (the global state only without a seed), no two repetitions depend on a common draw, re-estimating from the stored empirical distributions reproduces the stored estimates; execute_simulation_test_setting_unit gives repetition i exactly the draws of the i-th child of SeedSequence(seed_data), never touches the global state, and its generated objects, data and estimates do not change with task order or the four n_jobs settings; the random parts of the effective-Lindbladian noise model draw only from the stream they are given, and the flow hands the generator of sample i (i-th child of SeedSequence(seed_qoperation)) to the noise of the true object and of every tester. DepolarizedQOperationGenerationSetting.generate is proved, for every rate p in [0,1] and every symbolic state / POVM / gate / measurement process on 1 qubit and 1 qutrit, to return (1-p) ideal + p (maximally mixed of the same trace). The built-in physicality check of a run is proved to return False exactly when some stored estimate violates, at the documented thresholds, a constraint its estimator configuration enforces (projected linear: both; linear: equality when built into the parametrisation; loss minimisation: as the two algorithm flags say; nothing otherwise), relative to the per-object verdicts of C01; re-estimation from stored data reproduces the stored estimates for every sample and case.',
+ 'note': 'Two genuine defects found and fixed (single-setting run with an integer seed made all repetitions identical; POVM tomography could not be simulated at all: misspelled keyword). NOT decided: physicality of the random effective-Lindbladian objects (only the routing of their random streams is proved), real worker processes, loss-minimisation cases. Gate.is_cp of the depolarising channel is used through its closed-form spectrum (assumed lemma, cross-checked natively). Generators trusted.',
  'technique': 'contract-based deductive verification with ghost state (random streams), symbolic execution of the real code'}
